@@ -2251,6 +2251,8 @@ class Interp(object):
             if isinstance(container, (dict, set, frozenset)):
                 return item in container
             return any(x is item or x == item for x in items)
+        if isinstance(item, ClassRef):
+            return any(x is item or (isinstance(x, ClassRef) and x.qual == item.qual) for x in items)      # a class is one object
         if isinstance(item, Abs) and not isinstance(item, (SymInt, SymBool)):
             return any(x is item for x in items)
         if isinstance(item, SymInt):
